@@ -22,7 +22,7 @@ ASSUMPTIONS = [
     "lines of one list hold disjoint groups of the sorted set (the canonical way devices print long lists)",
 ]
 EXHAUSTIVE = {"quick": True, "thorough": False}
-FLOORS = {"quick": {"patches_simulated": 20000, "commands_parsed": 20000, "multi_line_cases": 10000, "helper_roundtrips": 2000, "block_cases": 10000, "block_cases_with_changed_blocks": 5000, "lag_member_cases": 1500},
+FLOORS = {"quick": {"patches_simulated": 20000, "commands_parsed": 20000, "multi_line_cases": 10000, "helper_roundtrips": 2000, "block_cases": 10000, "block_cases_with_changed_blocks": 5000, "lag_member_cases": 1500, "lists_spelled_with_blanks": 3000},
           "thorough": {"patches_simulated": 600000, "commands_parsed": 600000, "multi_line_cases": 300000, "helper_roundtrips": 50000, "block_cases": 300000, "block_cases_with_changed_blocks": 150000, "lag_member_cases": 40000}}
 U_QUICK = [2, 3, 4, 7, 8]
 U_THOROUGH = [2, 3, 4, 7, 8, 10, 11, 20]
@@ -165,8 +165,9 @@ def read_command(cmd, prefix, syntax, neg):
 LAG_LINE = "channel-group 1 mode active"
 
 
-def check_case(kind, old_groups, new_groups, acc, lag=None):
-    """lag: None | 'leaving' | 'joining' | 'staying' - the port is (also) a member of a port-channel on that side"""
+def check_case(kind, old_groups, new_groups, acc, lag=None, spaced=None):
+    """lag: None | 'leaving' | 'joining' | 'staying' - the port is (also) a member of a port-channel on that side;
+    spaced: None | 'old' | 'both' - the device (and the generator) spell the list with a blank after each comma, as some IOS versions print it"""
     from annet.api import _diff_and_patch
     from annet.annlib.netdev.views.hardware import HardwareView
     from annet.vendors import registry_connector
@@ -177,9 +178,14 @@ def check_case(kind, old_groups, new_groups, acc, lag=None):
     S_old = set(e for g in old_groups for e in g)
     S_new = set(e for g in new_groups for e in g)
     lo, ln = lines_for(old_groups, prefix, syntax), lines_for(new_groups, prefix, syntax)
+    if spaced:
+        lo = [x.replace(",", ", ") for x in lo]
+        if spaced == "both":
+            ln = [x.replace(",", ",  ") for x in ln]
+        acc.count("lists_spelled_with_blanks", sum(1 for x in lo + ln if ", " in x))
     old = build_tree(path, lo + ([LAG_LINE] if lag in ("leaving", "staying") else []))
     new = build_tree(path, ln + ([LAG_LINE] if lag in ("joining", "staying") else []))
-    w = {"kind": kind, "model": model, "old_groups": old_groups, "new_groups": new_groups, "old_lines": lo, "new_lines": ln, "lag": lag}
+    w = {"kind": kind, "model": model, "old_groups": old_groups, "new_groups": new_groups, "old_lines": lo, "new_lines": ln, "lag": lag, "spaced": spaced}
     if lag:
         acc.count("lag_member_cases")
     try:
@@ -241,6 +247,8 @@ def run_kind(spec, acc):
             for a, b in combos:
                 check_case(kind, a, b, acc)
                 # (NX-OS keeps switchport lines on port-channel members; the Catalyst logic drops them by design: members inherit them)
+                if KINDS[kind][3].startswith("cisco") and i % 3 == 1:
+                    check_case(kind, a, b, acc, spaced=("old", "both")[(i // 3) % 2])
                 if kind == "nexus-swtrunk" and i % 2 == 0:
                     check_case(kind, a, b, acc, lag=("leaving", "joining", "staying")[(i // 2) % 3])
     # random large sets with chunking (>10 / >5 / >15 ranges per command)
@@ -476,7 +484,7 @@ def run_shard(spec, acc):
             back = lambda side: (side[0], {int(k): v for k, v in side[1].items()})
             check_blocks_case(w["kind"], back(w["old_side"]), back(w["new_side"]), acc)
             return
-        check_case(w["kind"], w["old_groups"], w["new_groups"], acc, lag=w.get("lag"))
+        check_case(w["kind"], w["old_groups"], w["new_groups"], acc, lag=w.get("lag"), spaced=w.get("spaced"))
         return
     if spec["mode"] == "blocks":
         return run_blocks(spec, acc)
